@@ -292,6 +292,15 @@ fn startup(ctx: &mut Ctx, case: u64, rng: &mut Rng) {
             if declared >= 0 && consumed > (declared as usize).max(8) {
                 ctx.violation(case, "startup:consumed-beyond-frame", json!({"stream": bytes, "shape": shape, "declared": declared, "consumed": consumed, "result": format!("{:?}", res)}));
             }
+            // a decoded message owns exactly its declared frame, and a frame shorter than the fixed
+            // header cannot carry one
+            if let Ok(Some(_)) = &res {
+                if declared < 8 {
+                    ctx.violation(case, "startup:message-from-too-short-frame", json!({"stream": bytes, "shape": shape, "declared": declared, "consumed": consumed, "result": format!("{:?}", res)}));
+                } else if consumed != declared as usize {
+                    ctx.violation(case, "startup:message-but-frame-not-consumed-exactly", json!({"stream": bytes, "shape": shape, "declared": declared, "consumed": consumed, "result": format!("{:?}", res)}));
+                }
+            }
             if !hostile {
                 let ok = match &res {
                     Ok(Some(FrontendMessage::SSLRequest)) => ssl,
